@@ -55,8 +55,91 @@ Proof.
     destruct (float_neg e1) eqn:E1; destruct (float_neg e2) eqn:E2; simpl; try reflexivity; ring.
   - rewrite <- IHe1, <- IHe2.
     destruct (float_neg e1) eqn:E1; destruct (float_neg e2) eqn:E2; simpl; try reflexivity; unfold Rdiv;
-      try rewrite <- Ropp_inv_permute_compat; try ring.
+      rewrite ?Rinv_opp; ring.
   - rewrite IHe1, IHe2. reflexivity.
   - f_equal. rewrite map_map. induction H as [|x r Hx Hr IHr]; simpl; auto. rewrite Hx, IHr. reflexivity.
 Qed.
+
+Lemma list_eqb_ascii_eq a : forall b, list_eqb Ascii.eqb a b = true -> a = b.
+Proof.
+  induction a as [|x a IH]; intros [|y b] H; simpl in H; try discriminate; auto.
+  apply andb_true_iff in H. destruct H as [H1 H2]. apply Ascii.eqb_eq in H1. subst. f_equal. auto.
+Qed.
+
+Lemma nx_eqb_eq a : forall b, nx_eqb a b = true -> a = b.
+Proof.
+  induction a using nx_ind'; intros b Hb; destruct b; simpl in Hb; try discriminate.
+  - f_equal. apply list_eqb_ascii_eq; auto.
+  - f_equal. apply list_eqb_ascii_eq; auto.
+  - f_equal. apply list_eqb_ascii_eq; auto.
+  - f_equal. auto.
+  - apply andb_true_iff in Hb. destruct Hb. f_equal; auto.
+  - apply andb_true_iff in Hb. destruct Hb. f_equal; auto.
+  - apply andb_true_iff in Hb. destruct Hb. f_equal; auto.
+  - apply andb_true_iff in Hb. destruct Hb. f_equal; auto.
+  - apply andb_true_iff in Hb. destruct Hb. f_equal; auto.
+  - apply andb_true_iff in Hb. destruct Hb as [Hf Hl]. f_equal. apply list_eqb_ascii_eq; auto.
+    clear Hf. revert args0 Hl. induction H as [|x r Hx Hr IHr]; intros [|y l] Hl; try discriminate; auto.
+    apply andb_true_iff in Hl. destruct Hl as [H1 H2]. f_equal; auto.
+Qed.
+
+Theorem agree_sound_lemma f c : agree f c = true -> denoteN f = denoteN c.
+Proof.
+  unfold agree. intro H. apply nx_eqb_eq in H.
+  rewrite <- (float_neg_sound f), <- (float_neg_sound c), H. reflexivity.
+Qed.
 End Sem.
+
+Theorem validate_sound_lemma t : validate t = true ->
+  exists f c, parse_fortran (yield_f t) = Some f /\ parse_c (to_c t) = Some c /\
+    forall litv var ab fn powf, denoteN litv var ab fn powf f = denoteN litv var ab fn powf c.
+Proof.
+  unfold validate. destruct (parse_fortran (yield_f t)) as [f|]; [|discriminate].
+  destruct (parse_c (to_c t)) as [c|]; [|discriminate].
+  intro H. exists f, c. repeat split. intros. apply agree_sound_lemma. exact H.
+Qed.
+
+(** ** trees Lark returns, and what the validator says *)
+Definition tk := FTok.
+Definition nd := FNode.
+Definition v (s : string) : ftree := nd "atom" [nd "variable" [tk s]].
+Definition num (s : string) : ftree := nd "atom" [nd "scientific" [tk s]].
+Definition expr1 (a : ftree) : ftree := nd "expression" [nd "multiply" [a]].
+(* a**b**c as Lark parses it: ((a**b)**c) *)
+Definition t_pow3 : ftree :=
+  expr1 (nd "atom" [nd "power" [nd "atom" [nd "power" [v "a"; tk "**"; v "b"]]; tk "**"; v "c"]]).
+(* -1.0e0**2: the sign is part of the literal token *)
+Definition t_signed_base : ftree := expr1 (nd "atom" [nd "power" [num "-1.0e0"; tk "**"; num "2"]]).
+(* n(idx_H2): only one-character names get their charge suffix in the pre-pass *)
+Definition t_idx : ftree :=
+  expr1 (nd "atom" [nd "listvar" [nd "variable" [tk "n"]; tk "("; nd "index" [tk "_"; tk "H2"]; tk ")"]]).
+(* 4.67e-10*(T32)**(-5.0e-01)*exp(-3.04e+04*invT) *)
+Definition t_good : ftree :=
+  nd "expression" [nd "multiply" [num "4.67e-10"; tk "*";
+     nd "atom" [nd "power" [nd "atom" [tk "("; expr1 (v "T32"); tk ")"]; tk "**"; nd "atom" [tk "("; expr1 (num "-5.0e-01"); tk ")"]]]; tk "*";
+     nd "atom" [nd "func" [nd "variable" [tk "exp"]; tk "("; nd "expression" [nd "multiply" [num "-3.04e+04"; tk "*"; v "invT"]]; tk ")"]]]].
+
+Lemma examples_lemma :
+  to_c t_pow3 = "pow(pow(a, b), c)"%string /\ validate t_pow3 = false /\
+  to_c t_signed_base = "pow(-1.0e0, 2)"%string /\ validate t_signed_base = false /\
+  to_c t_idx = "y[IDX_H2]"%string /\ validate t_idx = false /\
+  to_c t_good = "4.67e-10 * pow((T32), (-5.0e-01)) * exp(-3.04e+04 * invT)"%string /\ validate t_good = true.
+Proof. vm_compute. repeat split; reflexivity. Qed.
+
+(* the two readings of a**b**c really differ: with exponentiation taking its true values on the
+   arguments used (2^9 = 512, 3^2 = 9, 2^3 = 8, 8^2 = 64) *)
+Definition pw (x y : R) : R :=
+  if Req_EM_T y 2 then x * x else if Req_EM_T y 3 then x * x * x
+  else if Req_EM_T y 9 then x * x * x * x * x * x * x * x * x else 0.
+Definition val (s : list ascii) : R :=
+  if list_eqb Ascii.eqb s (chars "a") then 2 else if list_eqb Ascii.eqb s (chars "b") then 3 else 2.
+Lemma pow_assoc_refuted_lemma :
+  exists f c, parse_fortran (yield_f t_pow3) = Some f /\ parse_c (to_c t_pow3) = Some c /\
+    denoteN (fun _ => 0) val (fun _ => 0) (fun _ _ => 0) pw f = 512 /\
+    denoteN (fun _ => 0) val (fun _ => 0) (fun _ _ => 0) pw c = 64.
+Proof.
+  eexists. eexists. split. vm_compute. reflexivity. split. vm_compute. reflexivity.
+  unfold val. cbn [denoteN chars list_ascii_of_string list_eqb Ascii.eqb Bool.eqb andb].
+  unfold pw.
+  repeat match goal with |- context [Req_EM_T ?a ?b] => destruct (Req_EM_T a b); try lra end.
+Qed.
